@@ -10,17 +10,17 @@
 (*  Pending m      1.5 s later request m still has no result (the longest time-out is 4 s)                *)
 (*  Check v        registrations the system still holds at that moment       *)
 EXTENDS Integers, Sequences, FiniteSets, TLC, Json
-VARIABLES l, bad, asks, res, triggered, isDead, pending
+VARIABLES l, bad, asks, res, triggered, isDead, pending, reqs
 TLog == ndJsonDeserialize("trace.ndjson")
 Ev == TLog[l]
 Get(f, k, d) == IF k \in DOMAIN f THEN f[k] ELSE d
 Put(f, k, v) == [x \in DOMAIN f \cup {k} |-> IF x = k THEN v ELSE f[x]]
 Flag(rule) == IF bad = "" THEN rule ELSE bad
-vars == <<l, bad, asks, res, triggered, isDead, pending>>
-Init == l = 1 /\ bad = "" /\ asks = <<>> /\ res = <<>> /\ triggered = FALSE /\ isDead = FALSE /\ pending = 0
+vars == <<l, bad, asks, res, triggered, isDead, pending, reqs>>
+Init == l = 1 /\ bad = "" /\ asks = <<>> /\ res = <<>> /\ triggered = FALSE /\ isDead = FALSE /\ pending = 0 /\ reqs = {}
 
-OnReset == /\ Ev.e = "Reset" /\ asks' = <<>> /\ res' = <<>> /\ triggered' = FALSE /\ isDead' = FALSE /\ pending' = 0 /\ UNCHANGED bad
-OnAsk == /\ Ev.e = "Ask" /\ asks' = Put(asks, Ev.m, Ev.n) /\ UNCHANGED <<bad, res, triggered, isDead, pending>>
+OnReset == /\ Ev.e = "Reset" /\ asks' = <<>> /\ res' = <<>> /\ triggered' = FALSE /\ isDead' = FALSE /\ pending' = 0 /\ reqs' = {} /\ UNCHANGED bad
+OnAsk == /\ Ev.e = "Ask" /\ asks' = Put(asks, Ev.m, Ev.n) /\ UNCHANGED <<bad, res, triggered, isDead, pending, reqs>>
 IsForeign(s) == Len(s) >= 7 /\ SubSeq(s, 1, 7) = "foreign"
 OnDone == /\ Ev.e = "Done"
           /\ res' = Put(res, Ev.m, Ev.s)
@@ -31,18 +31,23 @@ OnDone == /\ Ev.e = "Done"
                     ELSE IF Ev.s = "death" /\ ~triggered THEN Flag("DeathOnlyWhenTheAskerEnds")
                     ELSE IF Ev.s \notin {"own", "timer", "death"} THEN Flag("ReplyTimeoutOrDeath")
                     ELSE bad
-          /\ UNCHANGED <<asks, triggered, isDead, pending>>
-OnTrigger == /\ Ev.e = "Trigger" /\ triggered' = TRUE /\ UNCHANGED <<bad, asks, res, isDead, pending>>
-OnDead == /\ Ev.e = "AskerDead" /\ isDead' = TRUE /\ UNCHANGED <<bad, asks, res, triggered, pending>>
+          /\ UNCHANGED <<asks, triggered, isDead, pending, reqs>>
+OnTrigger == /\ Ev.e = "Trigger" /\ triggered' = TRUE /\ UNCHANGED <<bad, asks, res, isDead, pending, reqs>>
+OnDead == /\ Ev.e = "AskerDead" /\ isDead' = TRUE /\ UNCHANGED <<bad, asks, res, triggered, pending, reqs>>
 OnPending == /\ Ev.e = "Pending" /\ pending' = pending + 1
              /\ bad' = IF isDead THEN Flag("CompletesWhenTheAskerTerminates") ELSE bad
-             /\ UNCHANGED <<asks, res, triggered, isDead>>
+             /\ UNCHANGED <<asks, res, triggered, isDead, reqs>>
+\* Req m: the request of Ask m reached the (always running) target.  Every Ask sends its request, whatever state the asker
+\* is in when it asks: completing the Ask with a verdict of its own instead is not one of the three outcomes
+OnReq == /\ Ev.e = "Req" /\ reqs' = reqs \cup {Ev.m} /\ UNCHANGED <<bad, asks, res, triggered, isDead, pending>>
 OnCheck == /\ Ev.e = "Check"
-           /\ bad' = IF Ev.v > pending THEN Flag("NoRegistrationAfterCompletion") ELSE bad
-           /\ UNCHANGED <<asks, res, triggered, isDead, pending>>
-OnOther == /\ Ev.e \notin {"Reset", "Ask", "Done", "Trigger", "AskerDead", "Pending", "Check"}
-           /\ UNCHANGED <<bad, asks, res, triggered, isDead, pending>>
-Next == l <= Len(TLog) /\ l' = l + 1 /\ (OnReset \/ OnAsk \/ OnDone \/ OnTrigger \/ OnDead \/ OnPending \/ OnCheck \/ OnOther)
+           /\ bad' = IF Ev.v > pending THEN Flag("NoRegistrationAfterCompletion")
+                     ELSE IF DOMAIN asks \ reqs # {} THEN Flag("EveryAskSendsItsRequest")
+                     ELSE bad
+           /\ UNCHANGED <<asks, res, triggered, isDead, pending, reqs>>
+OnOther == /\ Ev.e \notin {"Reset", "Ask", "Done", "Trigger", "AskerDead", "Pending", "Check", "Req"}
+           /\ UNCHANGED <<bad, asks, res, triggered, isDead, pending, reqs>>
+Next == l <= Len(TLog) /\ l' = l + 1 /\ (OnReset \/ OnAsk \/ OnDone \/ OnTrigger \/ OnDead \/ OnPending \/ OnCheck \/ OnReq \/ OnOther)
 Spec == Init /\ [][Next]_vars
 Ok == bad = ""
 Accepted == TLCGet("stats").diameter - 1 = Len(TLog)
